@@ -1,0 +1,34 @@
+//go:build verif && js && wasm
+
+// Contracts of the js/wasm-only functions of package otp (comment-only; read by /verif/govc
+// when it loads the package with GOOS=js GOARCH=wasm).
+
+package otp
+
+//@ func otp.pow10Wasm(n) (r)
+//@   loop 1 invariant 0 <= i && (n >= 0 ==> i <= n) && (i <= 19 ==> result == pow10(i))
+//@   loop 1 decreases n - i
+//@   ensures 0 <= n && n <= 19 ==> r == pow10(n)
+//@   ensures n <= 0 ==> r == 1
+
+// the binding only ever passes the code lengths DigitsFromStr can return (6, 8, 9, 10)
+//@ func otp.DeriveRFC4226Wasm(secret, counter, digits, algo) (s, err)
+//@   reveal hotp otpcode
+//@   label secret key
+//@   label result mac
+//@   requires 1 <= digits && digits <= 10
+//@   loop 1 invariant -1 <= rangeindex && rangeindex < len(padding) && len(padding) == digits - len(dec(code))
+//@   loop 1 invariant forall k :: 0 <= k && k <= rangeindex ==> padding[k] == 48
+//@   loop 1 decreases len(padding) - rangeindex
+//@   loop 1 bound 11
+//@   assert code 1 : code == dt31(HMAC(algo, view(secret), be8(counter))) % pow10(digits)
+//@   ensures[rfc4226] algo <= 2 ==> err == nil && s == hotp(algo, view(secret), counter, digits)
+//@   ensures[badalgo] algo > 2 ==> err != nil && s == ""
+
+//@ func otp.ValidateOTPWasm(code, secret, counter, digits, algo) (ok, err)
+//@   label code usr
+//@   label secret key
+//@   label result clean
+//@   requires 1 <= digits && digits <= 10
+//@   ensures[iff] ok <==> (algo <= 2 && len(code) == digits && code == hotp(algo, view(secret), counter, digits))
+//@   ensures[verdict] (ok && err == nil) || (!ok && err != nil)
